@@ -1,7 +1,7 @@
 SPECIFICATION Spec
 CONSTANTS
   MaxDepth = 3
-  Bases = {"int", "char", "signed char", "unsigned char", "S", "unsigned long", "long double", "Pair<ns::K, ns::V>", "Pair<int, Pair<ns::V, ns::K> >"}
+  Bases = {"int", "char", "signed char", "unsigned char", "S", "unsigned long", "long double", "int long", "char unsigned", "Pair<ns::K, ns::V>", "Pair<int, Pair<ns::V, ns::K> >"}
   Kinds = {"const", "ptr", "ref", "rref", "arr2", "arr3", "fn0", "fn1", "fn2", "cfn0", "cfn1", "mptr"}
 INVARIANT WellFormed
 INVARIANT DepthOK
